@@ -200,6 +200,9 @@ def opts_src(P):
             m = {"eager": "rt::atj!" if t else "rt::aj!", "lazy": "rt::altj!" if t else "rt::alj!"}[j]
         else:
             m = {"eager": "rt::jm!", "lazy": "rt::ljm!", "try": "rt::tjm!"}[j]
+            if P.get("jfn"):       # a generic function as joiner (all multi-branch steps of the program have the same arity)
+                assert j == "lazy"
+                m = f"rt::lfj{len(P['branches'])}"
         parts["joiner"] = f"custom_joiner({m})"
     if o.get("transpose", "default") != "default":
         parts["transpose"] = f"transpose_results({o['transpose']})"
@@ -216,6 +219,10 @@ def macro_input(P):
     if h is not None:
         pos = P.get("hpos", n)
         items.insert(min(pos, n), h)
+    if h is not None and P.get("hnocomma") and 1 <= min(P.get("hpos", n), n):
+        # the comma between a branch that ends in a block and the handler is optional: leave it out
+        k = min(P.get("hpos", n), n)
+        items[k - 1:k + 1] = [items[k - 1] + "\n        " + items[k]]
     body = ",\n        ".join(items)
     o = opts_src(P)
     return (o + "\n        " if o else "") + body
@@ -239,6 +246,12 @@ def canon_fn(P):
 
 def program_fn(name, P):
     m = macro_name(P)
+    if P.get("fwd"):
+        # through a forwarding macro_rules! wrapper: the user's tokens arrive with the caller's hygiene context
+        body = program_fn(name, {k: v for k, v in P.items() if k != "fwd"})
+        fwd = f"    macro_rules! __fwd {{ ($($t:tt)*) => {{ {m}! {{ $($t)* }} }} }}\n"
+        head, rest = body.split("{\n", 1)
+        return head + "{\n" + fwd + rest.replace(f"{m}! {{", "__fwd! {", 1)
     inp = macro_input(P)
     cf = canon_fn(P)
     a, sp = P["kind"]["async"], P["kind"]["spawn"]
